@@ -93,6 +93,9 @@ def generate(rng, repo_root, opts=None):
         if cls == "SinglePhaseReservoir" and rng.random() < 0.35:
             scn["sched"] = world.draw_schedule(rng, fs, obj["pf"], n)
     elif kind == "const":
+        if rng.random() < 0.12 and fs["p_i"] < fs["_p_hi"]:
+            # a constant frac-face pressure ABOVE the initial pressure (injection): still a constant schedule
+            obj["pf"] = round(min(fs["_p_hi"], fs["p_i"] + rng.uniform(0.02, 0.2) * (fs["p_i"] - fs["_p_lo"])), 3)
         scn["const_form"] = "simulate_arg" if (cls == "SinglePhaseReservoir" and rng.random() < 0.6) else "ctor_array"
         if scn["const_form"] == "simulate_arg" and rng.random() < 0.5:
             # the object given the schedule is configured with ANOTHER scalar: the schedule's value must win
